@@ -386,7 +386,63 @@ def witness_genuine(run):
                               f"(w, start_A·back_A(w), start_B·back_B(w)) under `not approx_equal`; {n_none} paths return None")
 
 
+def reverse_and_glue(run):
+    """Auxiliary: `Simple.reverse` swaps start and stop and transposes every arc matrix (the real body executed on symbolic
+    vectors/matrices); `backward_conjugate` is reverse . forward_conjugate . reverse and `min` is forward_conjugate then
+    backward_conjugate (read off the AST) - the composition T-KIEFER's Propositions 3.4/3.5 are stated for."""
+    import ast
+    name = "C14/field_wfsa.Simple.reverse/swap-and-transpose"
+    _T = z3.Function("transpose", _Mat, _Mat)
+    try:
+        fn = source.find(REL, "Simple.reverse")
+        run.function_under_contract("genlm.grammar.wfsa.field_wfsa.Simple.reverse", source.sha(fn))
+        st, sp = z3.Const("start", _Vec), z3.Const("stop", _Vec)
+        Ma, Mb = z3.Const("M_a", _Mat), z3.Const("M_b", _Mat)
+        made = []
+
+        def mkSimple(i2, a, kw):
+            if a:
+                kw = dict(kw, **dict(zip(("start", "arcs", "stop"), a)))
+            made.append(kw)
+            return Bag(**kw)
+
+        it = I.Interp(I.Path([]))
+        selfobj = Bag(start=LA(st), stop=LA(sp), arcs={"a": Bag(T=LA(_T(Ma))), "b": Bag(T=LA(_T(Mb)))})
+        fobj = I.FuncObj(fn, I.Env(None, {"Simple": I.Native("Simple", mkSimple)}), "Simple.reverse")
+        it.call_func(fobj, [selfobj], {})
+        ok = len(made) == 1
+        if ok:
+            kw = made[0]
+            arcs = kw.get("arcs")
+            ok = (isinstance(kw.get("start"), LA) and kw["start"].e.eq(sp) and isinstance(kw.get("stop"), LA) and kw["stop"].e.eq(st)
+                  and isinstance(arcs, dict) and set(arcs) == {"a", "b"} and all(isinstance(v, LA) for v in arcs.values())
+                  and arcs["a"].e.eq(_T(Ma)) and arcs["b"].e.eq(_T(Mb)))
+        if ok:
+            run.obligation(name, "proved", role="auxiliary", backend="pyvc", detail="Simple(start=stop, arcs={a: M_a^T}, stop=start)")
+        else:
+            run.obligation(name, "refuted", role="auxiliary", backend="pyvc", detail=f"reverse builds {made!r}"[:200],
+                           replay=dict(replayed=False), signature="reverse:swap-transpose")
+    except (I.OutOfSubset, I.PyRaise, KeyError) as e:
+        run.obligation(name, "out-of-subset", role="auxiliary", detail=str(e))
+    want = {"backward_conjugate": ("C14/field_wfsa.Simple.backward_conjugate/reverse-forward-reverse", ["return self.reverse.forward_conjugate().reverse"]),
+            "min": ("C14/field_wfsa.Simple.min/forward-then-backward-conjugate", ["return self.forward_conjugate().backward_conjugate()"])}
+    for m, (nm, bodies) in want.items():
+        try:
+            fn = source.find(REL, f"Simple.{m}")
+        except KeyError:
+            run.obligation(nm, "out-of-subset", role="auxiliary", detail=f"Simple.{m} not found")
+            continue
+        run.function_under_contract(f"genlm.grammar.wfsa.field_wfsa.Simple.{m}", source.sha(fn))
+        src = [ast.unparse(x) for x in fn.body if not (isinstance(x, ast.Expr) and isinstance(x.value, ast.Constant))]
+        if src == bodies:
+            run.obligation(nm, "proved", role="auxiliary", backend="ast", detail="; ".join(src))
+        else:
+            # another definition withdraws the glue (the bounded layer decides: min is equivalent and has hankel_rank states)
+            run.obligation(nm, "out-of-subset", role="auxiliary", backend="ast", detail="body is " + "; ".join(src)[:160])
+
+
 def proved(run):
     simple_faithful(run)
     eq_hash_glue(run)
     witness_genuine(run)
+    reverse_and_glue(run)
